@@ -33,8 +33,10 @@ corpus witness that runs first on every run; reverting the fix in a scratch work
 Recorded as known ({len(kn)}; each with an exclusion clause evaluated in Lean on the failing trace, and where the model carries it a
 `_partial` theorem plus a `_witness` theorem) — design-level, protocol-level or not small:
 {wrap(kn)}.
-A known finding suppresses only verdicts whose clause (component, monitor, and the specific key/op shape computed by the Lean
-driver) matches; any other violation of the same property is still a VIOLATION.
+A known finding accounts only for verdicts that carry its clause id, which the Lean driver computes PER VERDICT from the failing
+trace (the specific key / operation shape of the finding; never "any verdict of this monitor"), and — where the entry carries
+`match_component` / `match_monitors` — only for that component and those monitors; any other violation of the same property is
+still a VIOLATION. The number of verdicts each clause accounted for is in the evidence (`known_finding_verdicts`).
 
 '''
 s = s[:i] + sec + s[j:]
